@@ -1,11 +1,1461 @@
+//! C15 — only blocks that satisfy the consensus rules are accepted.
+//!
+//! Workload: sealed chains (genesis + N blocks) under `PoA`, `PoAV2` without overrides
+//! and `PoAV2` with a key schedule that changes every few heights; blocks are
+//! structurally generated (random transactions of every kind, random generated-field
+//! inputs), built with `Block::new`, signed with the key the schedule prescribes and
+//! stored in a real on-chain `Database` (so the verifier reads the real parent header
+//! and the real block-header Merkle root). For every block ~170 single-field
+//! mutations are derived, each in three modes: *stale* (only the field is changed, as
+//! a peer could send it over the wire), *rehash* (application hash and id recomputed,
+//! old seal) and *resign* (recomputed and sealed again with the correct key).
+//!
+//! The three acceptance gates of the real code are observed separately:
+//! `Verifier::verify_block_fields` (via the production `VerifierAdapter`),
+//! `Verifier::verify_consensus`, `Block::try_from_executed`.
+//!
+//! Oracle (written from the property text): a model of the chain (heights, per-height
+//! RFC-6962 root over block ids, parent da height / time, own key schedule) decides
+//! for every case which rule is violated:
+//!   * height 0 / unknown parent / prev_root != parent root / da or time below parent /
+//!     application hash not matching the application fields / tx root or count not
+//!     matching the transactions / genesis seal on a non-genesis block
+//!         => `verify_block_fields` must return `Err`
+//!   * tx root or count not matching => `try_from_executed` must return `None`
+//!   * seal not produced by the key scheduled for the block's height over the block's
+//!     current id => `verify_consensus` must return `false`
+//!   * no rule violated => all three must accept (valid blocks must pass)
+//!   * block content changed and everything accepted => the id must have changed.
+
+#[path = "../../mon-aggregator/src/txgen.rs"]
+mod txgen;
+
+use fuel_core::{
+    database::{
+        Database,
+        database_description::on_chain::OnChain,
+    },
+    service::adapters::VerifierAdapter,
+};
+use fuel_core_chain_config::{
+    ConsensusConfig,
+    PoAV2,
+};
+use fuel_core_consensus_module::block_verifier::{
+    Verifier,
+    config::Config as VerifierConfig,
+};
+use fuel_core_storage::{
+    StorageAsMut,
+    tables::FuelBlocks,
+    transactional::WriteTransaction,
+};
+use fuel_core_types::{
+    blockchain::{
+        SealedBlock,
+        SealedBlockHeader,
+        block::Block,
+        consensus::{
+            Consensus,
+            poa::PoAConsensus,
+        },
+        header::{
+            ApplicationHeader,
+            BlockHeader,
+            BlockHeaderV1,
+            ConsensusHeader,
+            GeneratedConsensusFields,
+            PartialBlockHeader,
+            v1::GeneratedApplicationFieldsV1,
+        },
+        primitives::{
+            DaBlockHeight,
+            Empty,
+        },
+    },
+    fuel_crypto::{
+        SecretKey,
+        Signature,
+    },
+    fuel_tx::{
+        Input,
+        Transaction,
+        field::{
+            ReceiptsRoot,
+            Witnesses,
+        },
+    },
+    fuel_types::{
+        Address,
+        BlockHeight,
+        ChainId,
+        MessageId,
+        canonical::{
+            Deserialize,
+            Serialize,
+        },
+    },
+    tai64::Tai64,
+};
+use rand::{
+    Rng,
+    rngs::StdRng,
+};
+use serde_json::json;
+use std::collections::BTreeMap;
+use txgen::*;
 use vcommon::*;
+
+type ODb = Database<OnChain>;
 
 fn main() {
     let args = Args::parse();
     install_quiet_panic_hook();
     let report = Report::new(&args.property);
     match args.property.as_str() {
-        other => report.inconclusive(format!("property {other} not implemented in this monitor")),
+        "C15" => c15(&args, &report),
+        other => {
+            report.inconclusive(format!(
+                "property {other} not implemented in this monitor"
+            ));
+            report.finish(&args, "exploration", "", false, &[]);
+        }
     }
-    report.finish(&args, "exploration", "", false, &[]);
+}
+
+// --------------------------------------------------------------------------
+// model side
+// --------------------------------------------------------------------------
+
+/// All header fields, in plain form.
+#[derive(Clone, Debug, PartialEq, Eq)]
+struct Fields {
+    da: u64,
+    cpv: u32,
+    stf: u32,
+    tx_count: u16,
+    msg_count: u32,
+    tx_root: [u8; 32],
+    outbox_root: [u8; 32],
+    event_root: [u8; 32],
+    prev_root: [u8; 32],
+    height: u32,
+    time: u64,
+    app_hash: [u8; 32],
+}
+
+impl Fields {
+    fn of(h: &BlockHeader) -> Self {
+        Fields {
+            da: h.da_height().0,
+            cpv: h.consensus_parameters_version(),
+            stf: h.state_transition_bytecode_version(),
+            tx_count: h.transactions_count(),
+            msg_count: h.message_receipt_count(),
+            tx_root: *h.transactions_root(),
+            outbox_root: *h.message_outbox_root(),
+            event_root: *h.event_inbox_root(),
+            prev_root: **h.prev_root(),
+            height: **h.height(),
+            time: h.time().0,
+            app_hash: **h.application_hash(),
+        }
+    }
+
+    fn app_part(&self) -> (u64, u32, u32, u16, u32, [u8; 32], [u8; 32], [u8; 32]) {
+        (
+            self.da,
+            self.cpv,
+            self.stf,
+            self.tx_count,
+            self.msg_count,
+            self.tx_root,
+            self.outbox_root,
+            self.event_root,
+        )
+    }
+
+    /// Build the header value. `rehash`: recompute application hash + id the way a
+    /// block producer would; otherwise the header carries exactly these fields and
+    /// no cached id (what deserialisation from the wire yields).
+    fn build(&self, rehash: bool) -> BlockHeader {
+        let mut v1 = BlockHeaderV1::default();
+        v1.set_application_header(ApplicationHeader {
+            da_height: DaBlockHeight(self.da),
+            consensus_parameters_version: self.cpv,
+            state_transition_bytecode_version: self.stf,
+            generated: GeneratedApplicationFieldsV1 {
+                transactions_count: self.tx_count,
+                message_receipt_count: self.msg_count,
+                transactions_root: self.tx_root.into(),
+                message_outbox_root: self.outbox_root.into(),
+                event_inbox_root: self.event_root.into(),
+            },
+        });
+        let mut h = BlockHeader::V1(v1);
+        h.set_consensus_header(ConsensusHeader {
+            prev_root: self.prev_root.into(),
+            height: self.height.into(),
+            time: Tai64(self.time),
+            generated: GeneratedConsensusFields {
+                application_hash: self.app_hash.into(),
+            },
+        });
+        if rehash {
+            h.recalculate_metadata();
+        }
+        h
+    }
+}
+
+#[derive(Clone, Debug)]
+struct ModelCfg {
+    /// PoA (single key) or PoAV2
+    v2: bool,
+    genesis: Address,
+    /// (first height, key address), ascending
+    overrides: Vec<(u32, Address)>,
+}
+
+impl ModelCfg {
+    /// the key address that has to seal height `h`
+    fn signer_for(&self, h: u32) -> Address {
+        let mut a = self.genesis;
+        for (from, k) in &self.overrides {
+            if *from <= h {
+                a = *k;
+            }
+        }
+        a
+    }
+
+    fn real(&self) -> ConsensusConfig {
+        if self.v2 {
+            let map: BTreeMap<BlockHeight, Address> = self
+                .overrides
+                .iter()
+                .map(|(h, a)| (BlockHeight::new(*h), *a))
+                .collect();
+            ConsensusConfig::PoAV2(PoAV2::new(self.genesis, map))
+        } else {
+            ConsensusConfig::PoA {
+                signing_key: self.genesis,
+            }
+        }
+    }
+
+    fn kind(&self) -> &'static str {
+        match (self.v2, self.overrides.is_empty()) {
+            (false, _) => "PoA",
+            (true, true) => "PoAV2-no-overrides",
+            (true, false) => "PoAV2-schedule",
+        }
+    }
+}
+
+fn addr_of(sk: &SecretKey) -> Address {
+    Input::owner(&sk.public_key())
+}
+
+#[derive(Clone)]
+struct Sched {
+    genesis: SecretKey,
+    overrides: Vec<(u32, SecretKey)>,
+}
+
+impl Sched {
+    fn secret_for(&self, h: u32) -> &SecretKey {
+        let mut s = &self.genesis;
+        for (from, k) in &self.overrides {
+            if *from <= h {
+                s = k;
+            }
+        }
+        s
+    }
+
+    fn model(&self, v2: bool) -> ModelCfg {
+        ModelCfg {
+            v2,
+            genesis: addr_of(&self.genesis),
+            overrides: self
+                .overrides
+                .iter()
+                .map(|(h, k)| (*h, addr_of(k)))
+                .collect(),
+        }
+    }
+}
+
+#[derive(Clone, Debug)]
+struct ParentInfo {
+    /// RFC 6962 root over the ids of all blocks up to and including this height
+    root: [u8; 32],
+    da: u64,
+    time: u64,
+    id: [u8; 32],
+}
+
+#[derive(Clone)]
+enum Seal {
+    PoA {
+        sig: Signature,
+        signer: Address,
+        /// the 32 bytes that were signed
+        msg: [u8; 32],
+        tampered: bool,
+    },
+    Genesis,
+}
+
+struct Case {
+    op: String,
+    mode: &'static str,
+    fields: Fields,
+    rehash: bool,
+    txs: Vec<Transaction>,
+    seal: Seal,
+    /// `None`: the session's configuration
+    cfg: Option<ModelCfg>,
+    /// kind of seal/config manipulation, for the signature of a finding
+    sig_class: &'static str,
+}
+
+#[derive(Debug, Clone, PartialEq)]
+enum Obs {
+    Accept,
+    Reject(String),
+    Panic(String),
+}
+
+impl Obs {
+    fn accepted(&self) -> bool {
+        matches!(self, Obs::Accept)
+    }
+    fn short(&self) -> &'static str {
+        match self {
+            Obs::Accept => "accept",
+            Obs::Reject(_) => "reject",
+            Obs::Panic(_) => "panic",
+        }
+    }
+}
+
+struct Session {
+    db: ODb,
+    verifier: std::sync::Arc<Verifier<ODb>>,
+    g_height: u32,
+    g_da: u64,
+    cfg: ModelCfg,
+    sched: Sched,
+    chain: BTreeMap<u32, ParentInfo>,
+    ids: Vec<Vec<u8>>,
+}
+
+fn tx_bytes(txs: &[Transaction]) -> Vec<Vec<u8>> {
+    txs.iter().map(|t| t.to_bytes()).collect()
+}
+
+fn flip(b: &mut [u8; 32], rng: &mut StdRng) {
+    let i = rng.gen_range(0..32);
+    b[i] ^= 1 << rng.gen_range(0..8);
+}
+
+// --------------------------------------------------------------------------
+// evaluating one case against the real code and the model
+// --------------------------------------------------------------------------
+
+struct Ctx<'a> {
+    report: &'a Report,
+    selftest: u32,
+    replay: serde_json::Value,
+}
+
+#[allow(clippy::too_many_arguments)]
+fn evaluate(
+    ctx: &Ctx,
+    s: &Session,
+    rng: &mut StdRng,
+    orig_fields: &Fields,
+    orig_txs_bytes: &[Vec<u8>],
+    orig_id: [u8; 32],
+    at_key_boundary: bool,
+    c: &Case,
+) -> bool {
+    let report = ctx.report;
+    let pfx = if ctx.selftest > 0 { "selftest:" } else { "" };
+    report.eval();
+    report.count("c15.cases");
+    report.count(&format!("c15.mode.{}", c.mode));
+    let mcfg = c.cfg.as_ref().unwrap_or(&s.cfg);
+    report.count(&format!("c15.config.{}", mcfg.kind()));
+
+    // ---- build the values handed to the real code
+    let mut header = c.fields.build(c.rehash);
+    let mut txs = c.txs.clone();
+    let mut consensus = match &c.seal {
+        Seal::PoA { sig, .. } => Consensus::PoA(PoAConsensus::new(*sig)),
+        Seal::Genesis => Consensus::Genesis(Default::default()),
+    };
+    let mut block = Block::default();
+    *block.header_mut() = header.clone();
+    *block.transactions_mut() = txs.clone();
+    if rng.gen_bool(0.3) {
+        // through the wire format used for sealed blocks between nodes
+        let sealed = SealedBlock {
+            entity: block.clone(),
+            consensus: consensus.clone(),
+        };
+        let bytes = postcard::to_allocvec(&sealed).expect("postcard");
+        let back: SealedBlock = postcard::from_bytes(&bytes).expect("postcard");
+        report.count("c15.via_postcard");
+        block = back.entity;
+        consensus = back.consensus;
+        header = block.header().clone();
+        txs = block.transactions().to_vec();
+    }
+
+    // ---- observe the three gates
+    let my_cfg = c.cfg.as_ref().map(|m| m.real());
+    let alt_verifier = my_cfg.map(|cc| {
+        Verifier::new(
+            VerifierConfig::new(cc, s.g_height.into(), DaBlockHeight(s.g_da)),
+            s.db.clone(),
+        )
+    });
+    let verifier: &Verifier<ODb> = match &alt_verifier {
+        Some(v) => v,
+        None => s.verifier.as_ref(),
+    };
+    let obs_a = match catch(|| Block::try_from_executed(header.clone(), txs.clone())) {
+        Ok(Some(_)) => Obs::Accept,
+        Ok(None) => Obs::Reject("None".into()),
+        Err(p) => Obs::Panic(p),
+    };
+    let mut obs_b = match catch(|| verifier.verify_block_fields(&consensus, &block)) {
+        Ok(Ok(())) => Obs::Accept,
+        Ok(Err(e)) => Obs::Reject(format!("{e}")),
+        Err(p) => Obs::Panic(p),
+    };
+    let sealed_header = SealedBlockHeader {
+        entity: header.clone(),
+        consensus: consensus.clone(),
+    };
+    let mut obs_c = match catch(|| verifier.verify_consensus(&sealed_header)) {
+        Ok(true) => Obs::Accept,
+        Ok(false) => Obs::Reject("false".into()),
+        Err(p) => Obs::Panic(p),
+    };
+    // deliberately wrong wrappers (oracle self-test)
+    match ctx.selftest {
+        1 if c.op.starts_with("prev_root") => obs_b = Obs::Accept,
+        2 if c.op == "sig:other_key" => obs_c = Obs::Accept,
+        3 if c.op == "valid" => obs_b = Obs::Reject("selftest".into()),
+        4 if c.op.starts_with("time=parent-1") => obs_b = Obs::Accept,
+        _ => {}
+    }
+
+    // ---- the model's verdict
+    let f = &c.fields;
+    let mut why: Vec<&'static str> = Vec::new();
+    let genesis_seal = matches!(c.seal, Seal::Genesis);
+    if genesis_seal {
+        why.push("genesis_seal");
+    }
+    if f.height == 0 {
+        why.push("height_zero");
+    } else {
+        match s.chain.get(&(f.height - 1)) {
+            None => why.push("unknown_parent"),
+            Some(p) => {
+                if p.root != f.prev_root {
+                    why.push("prev_root");
+                }
+                if f.da < p.da {
+                    why.push("da_height");
+                }
+                if f.time < p.time {
+                    why.push("time");
+                }
+            }
+        }
+    }
+    let app_consistent = c.rehash
+        || (f.app_part() == orig_fields.app_part() && f.app_hash == orig_fields.app_hash);
+    if !app_consistent {
+        why.push("application_hash");
+    }
+    let now_bytes = tx_bytes(&c.txs);
+    let txs_match =
+        rfc6962_root(&now_bytes) == f.tx_root && now_bytes.len() == f.tx_count as usize;
+    if !txs_match {
+        why.push("transactions");
+    }
+    let fields_ok = why.is_empty();
+    let id_now: Option<[u8; 32]> = catch(|| header.id()).ok().map(|id| {
+        let b: fuel_core_types::fuel_types::Bytes32 = id.into();
+        *b
+    });
+    let sig_ok: Option<bool> = match &c.seal {
+        // `verify_consensus` does not judge genesis seals
+        Seal::Genesis => None,
+        Seal::PoA {
+            signer,
+            msg,
+            tampered,
+            ..
+        } => id_now.map(|id| {
+            !*tampered && *msg == id && *signer == mcfg.signer_for(f.height)
+        }),
+    };
+    if sig_ok.is_none() {
+        report.count("c15.verify_consensus_not_judged");
+    }
+
+    let content_changed = f != orig_fields || now_bytes != orig_txs_bytes;
+    let shape = (
+        c.op.clone(),
+        c.mode,
+        mcfg.kind(),
+        at_key_boundary,
+        obs_a.short(),
+        obs_b.short(),
+        obs_c.short(),
+    );
+    report.distinct(&shape);
+    for w in &why {
+        report.count(&format!("c15.rule_violated.{w}"));
+    }
+    if let Obs::Reject(e) = &obs_b {
+        let k: String = e.chars().take(40).collect();
+        report.count(&format!("c15.verify_block_fields.err.{k}"));
+    }
+    if matches!(obs_b, Obs::Panic(_)) {
+        report.count("c15.verify_block_fields.panic");
+    }
+    if matches!(obs_c, Obs::Panic(_)) {
+        report.count("c15.verify_consensus.panic(debug-assert on stale app hash)");
+    }
+    if sig_ok == Some(false) {
+        report.count(&format!("c15.seal_invalid.{}", c.sig_class));
+    }
+
+    let detail = |what: &str| {
+        format!(
+            "{what}; op={} mode={} config={} height={} (orig height {}); rules violated per model: {:?}; observed try_from_executed={:?} verify_block_fields={:?} verify_consensus={:?}; fields={:?}",
+            c.op,
+            c.mode,
+            mcfg.kind(),
+            f.height,
+            orig_fields.height,
+            why,
+            obs_a,
+            obs_b,
+            obs_c,
+            f
+        )
+    };
+    let mut fired = false;
+
+    // verify_block_fields
+    if !fields_ok && obs_b.accepted() {
+        report.violation(
+            format!(
+                "{pfx}accepted_invalid checker=verify_block_fields rule={}",
+                why[0]
+            ),
+            detail("a block violating a consensus rule passed verify_block_fields"),
+            ctx.replay.clone(),
+        );
+        fired = true;
+    }
+    if fields_ok && !obs_b.accepted() {
+        report.violation(
+            format!(
+                "{pfx}valid_rejected checker=verify_block_fields op={}",
+                c.op
+            ),
+            detail("a block satisfying every rule was rejected by verify_block_fields"),
+            ctx.replay.clone(),
+        );
+        fired = true;
+    }
+    // try_from_executed
+    if !txs_match && obs_a.accepted() {
+        report.violation(
+            format!("{pfx}accepted_invalid checker=try_from_executed rule=transactions"),
+            detail("transactions do not match root/count but try_from_executed built the block"),
+            ctx.replay.clone(),
+        );
+        fired = true;
+    }
+    if txs_match && !obs_a.accepted() {
+        report.violation(
+            format!("{pfx}valid_rejected checker=try_from_executed op={}", c.op),
+            detail("transactions match root/count but try_from_executed refused"),
+            ctx.replay.clone(),
+        );
+        fired = true;
+    }
+    // verify_consensus
+    match sig_ok {
+        Some(false) if obs_c.accepted() => {
+            report.violation(
+                format!(
+                    "{pfx}accepted_invalid checker=verify_consensus rule=signature class={}",
+                    c.sig_class
+                ),
+                detail("the seal is not a signature of the scheduled key over the block id but verify_consensus returned true"),
+                ctx.replay.clone(),
+            );
+            fired = true;
+        }
+        Some(true) if !obs_c.accepted() => {
+            report.violation(
+                format!("{pfx}valid_rejected checker=verify_consensus op={}", c.op),
+                detail("the seal is the scheduled key's signature over the block id but verify_consensus returned false"),
+                ctx.replay.clone(),
+            );
+            fired = true;
+        }
+        _ => {}
+    }
+    // the id must commit to the whole content
+    let all_accept = obs_a.accepted() && obs_b.accepted() && obs_c.accepted();
+    if all_accept {
+        report.count("c15.accepted_by_all");
+        if content_changed {
+            report.count("c15.accepted_changed_content");
+            if id_now == Some(orig_id) {
+                report.violation(
+                    format!("{pfx}same_id_accepted op={}", c.op),
+                    detail("block content changed, all gates accept, and the block id is unchanged"),
+                    ctx.replay.clone(),
+                );
+                fired = true;
+            }
+        }
+    } else {
+        report.count("c15.rejected_by_some");
+        let who = format!(
+            "c15.rejected_by.{}{}{}",
+            if obs_a.accepted() { "" } else { "A" },
+            if obs_b.accepted() { "" } else { "B" },
+            if obs_c.accepted() { "" } else { "C" }
+        );
+        report.count(&who);
+    }
+    if report.wants_sample() && c.op != "valid" && rng.gen_bool(0.002) {
+        report.sample(json!({
+            "op": c.op, "mode": c.mode, "config": mcfg.kind(),
+            "model_rules_violated": why,
+            "try_from_executed": obs_a.short(), "verify_block_fields": format!("{obs_b:?}"), "verify_consensus": obs_c.short(),
+            "id_changed": id_now.map(|i| i != orig_id),
+        }));
+    }
+    fired
+}
+
+// --------------------------------------------------------------------------
+// mutation operators
+// --------------------------------------------------------------------------
+
+fn field_ops(
+    rng: &mut StdRng,
+    o: &Fields,
+    parent: &ParentInfo,
+    grandparent: Option<&ParentInfo>,
+    g_height: u32,
+    orig_id: [u8; 32],
+) -> Vec<(String, Fields, bool)> {
+    // (name, fields, touches only the application hash field)
+    let mut v: Vec<(String, Fields, bool)> = Vec::new();
+    macro_rules! op {
+        ($name:expr, $f:ident, $body:block) => {{
+            let mut $f = o.clone();
+            $body;
+            v.push(($name.to_string(), $f, false));
+        }};
+    }
+    op!("da+1", f, { f.da = f.da.wrapping_add(1) });
+    if o.da > 0 {
+        op!("da-1", f, { f.da -= 1 });
+    }
+    if parent.da > 0 {
+        op!("da=parent-1", f, { f.da = parent.da - 1 });
+    }
+    op!("da=parent", f, { f.da = parent.da });
+    op!("da=rand", f, { f.da = rng.r#gen() });
+    op!("da=max", f, { f.da = u64::MAX });
+    op!("cpv+1", f, { f.cpv = f.cpv.wrapping_add(1) });
+    op!("cpv=rand", f, { f.cpv = rng.r#gen() });
+    op!("stf+1", f, { f.stf = f.stf.wrapping_add(1) });
+    op!("stf=rand", f, { f.stf = rng.r#gen() });
+    op!("tx_count+1", f, { f.tx_count = f.tx_count.wrapping_add(1) });
+    if o.tx_count > 0 {
+        op!("tx_count-1", f, { f.tx_count -= 1 });
+        op!("tx_count=0", f, { f.tx_count = 0 });
+    }
+    op!("msg_count+1", f, { f.msg_count = f.msg_count.wrapping_add(1) });
+    op!("msg_count=rand", f, { f.msg_count = rng.r#gen() });
+    op!("tx_root:flip", f, { flip(&mut f.tx_root, rng) });
+    op!("tx_root=rand", f, { f.tx_root = b32(rng) });
+    op!("outbox_root:flip", f, { flip(&mut f.outbox_root, rng) });
+    op!("event_root:flip", f, { flip(&mut f.event_root, rng) });
+    op!("prev_root:flip", f, { flip(&mut f.prev_root, rng) });
+    op!("prev_root=zero", f, { f.prev_root = [0; 32] });
+    op!("prev_root=rand", f, { f.prev_root = b32(rng) });
+    if let Some(gp) = grandparent {
+        op!("prev_root=grandparent_root", f, { f.prev_root = gp.root });
+    }
+    op!("prev_root=parent_id", f, { f.prev_root = parent.id });
+    op!("prev_root=own_id", f, { f.prev_root = orig_id });
+    op!("height=0", f, { f.height = 0 });
+    op!("height+1", f, { f.height = f.height.wrapping_add(1) });
+    op!("height-1", f, { f.height -= 1 });
+    op!("height=genesis", f, { f.height = g_height });
+    op!("height=rand", f, { f.height = rng.r#gen() });
+    op!("time+1", f, { f.time = f.time.wrapping_add(1) });
+    if o.time > 0 {
+        op!("time-1", f, { f.time -= 1 });
+    }
+    if parent.time > 0 {
+        op!("time=parent-1", f, { f.time = parent.time - 1 });
+    }
+    op!("time=parent", f, { f.time = parent.time });
+    op!("time=rand", f, { f.time = rng.r#gen() });
+    op!("time=0", f, { f.time = 0 });
+    // application hash itself: meaningful only without re-hashing
+    for (name, val) in [
+        ("app_hash:flip", {
+            let mut x = o.app_hash;
+            flip(&mut x, rng);
+            x
+        }),
+        ("app_hash=rand", b32(rng)),
+        ("app_hash=zero", [0u8; 32]),
+    ] {
+        let mut f = o.clone();
+        f.app_hash = val;
+        v.push((name.to_string(), f, true));
+    }
+    v
+}
+
+fn tx_ops(
+    rng: &mut StdRng,
+    alpha: &Alphabet,
+    txs: &[Transaction],
+    report: &Report,
+) -> Vec<(String, Vec<Transaction>)> {
+    let mut v = Vec::new();
+    let opts = Opts::default();
+    let fresh = |rng: &mut StdRng| {
+        let k = rng.gen_range(0..6);
+        gen_tx(rng, alpha, &mut FreeSource, &opts, k)
+    };
+    {
+        let mut t = txs.to_vec();
+        let at = rng.gen_range(0..=t.len());
+        let n = fresh(rng);
+        t.insert(at, n);
+        v.push(("tx:insert".to_string(), t));
+    }
+    {
+        let mut t = txs.to_vec();
+        let n = fresh(rng);
+        t.push(n);
+        v.push(("tx:append".to_string(), t));
+    }
+    if !txs.is_empty() {
+        let mut t = txs.to_vec();
+        t.remove(rng.gen_range(0..t.len()));
+        v.push(("tx:remove".to_string(), t));
+        let mut t = txs.to_vec();
+        let i = rng.gen_range(0..t.len());
+        let d = t[i].clone();
+        t.insert(i, d);
+        v.push(("tx:duplicate".to_string(), t));
+        let mut t = txs.to_vec();
+        let i = rng.gen_range(0..t.len());
+        t[i] = fresh(rng);
+        v.push(("tx:replace".to_string(), t));
+        // byte flip in the canonical encoding
+        for _ in 0..4 {
+            let i = rng.gen_range(0..txs.len());
+            let mut b = txs[i].to_bytes();
+            let at = rng.gen_range(0..b.len());
+            b[at] ^= 1 << rng.gen_range(0..8);
+            match catch(|| Transaction::from_bytes(&b)) {
+                Ok(Ok(t2)) if t2.to_bytes() != txs[i].to_bytes() => {
+                    let mut t = txs.to_vec();
+                    t[i] = t2;
+                    v.push(("tx:byteflip".to_string(), t));
+                    break;
+                }
+                _ => report.count("c15.tx_byteflip_not_decodable"),
+            }
+        }
+        // change that leaves the transaction id untouched: witness data
+        let mut t = txs.to_vec();
+        let i = rng.gen_range(0..t.len());
+        let touched = match &mut t[i] {
+            Transaction::Script(x) => {
+                x.witnesses_mut().push(vec![0xAB].into());
+                true
+            }
+            Transaction::Create(x) => {
+                x.witnesses_mut().push(vec![0xAB].into());
+                true
+            }
+            Transaction::Upgrade(x) => {
+                x.witnesses_mut().push(vec![0xAB].into());
+                true
+            }
+            Transaction::Upload(x) => {
+                x.witnesses_mut().push(vec![0xAB].into());
+                true
+            }
+            Transaction::Blob(x) => {
+                x.witnesses_mut().push(vec![0xAB].into());
+                true
+            }
+            Transaction::Mint(_) => false,
+        };
+        if touched {
+            v.push(("tx:witness_only".to_string(), t));
+        }
+        // change of a field that is zeroed for the transaction id
+        let mut t = txs.to_vec();
+        if let Some(Transaction::Script(x)) =
+            t.iter_mut().find(|x| matches!(x, Transaction::Script(_)))
+        {
+            let mut r = **x.receipts_root();
+            flip(&mut r, rng);
+            *x.receipts_root_mut() = r.into();
+            v.push(("tx:malleable_field".to_string(), t));
+        }
+    }
+    if txs.len() >= 2 {
+        let i = rng.gen_range(0..txs.len());
+        let j = (i + 1 + rng.gen_range(0..txs.len() - 1)) % txs.len();
+        if txs[i].to_bytes() != txs[j].to_bytes() {
+            let mut t = txs.to_vec();
+            t.swap(i, j);
+            v.push(("tx:swap".to_string(), t));
+        }
+    }
+    v
+}
+
+// --------------------------------------------------------------------------
+// session
+// --------------------------------------------------------------------------
+
+fn sign(sk: &SecretKey, id: [u8; 32]) -> Signature {
+    let m = fuel_core_types::fuel_crypto::Message::from_bytes(id);
+    Signature::sign(sk, &m)
+}
+
+fn id_bytes(b: &Block) -> [u8; 32] {
+    let x: fuel_core_types::fuel_types::Bytes32 = b.id().into();
+    *x
+}
+
+#[allow(clippy::too_many_arguments)]
+fn run_session(report: &Report, seed: u64, shard: usize, session: u64, n_blocks: usize, selftest: u32) {
+    let mut rng = rng_for(seed, &[tag("c15"), session]);
+    let pfx = if selftest > 0 { "selftest:" } else { "" };
+    let chain_id = ChainId::default();
+    let alpha = Alphabet::new(&mut rng, 4, 30);
+    let kind = session % 3; // 0 PoA, 1 PoAV2 without overrides, 2 PoAV2 with schedule
+    let g_height: u32 = *pick(&mut rng, &[0u32, 0, 1, 5, 1000, 0x00ff_fffa]);
+    let g_da: u64 = *pick(&mut rng, &[0u64, 0, 7, 1 << 40]);
+    let mut sched = Sched {
+        genesis: SecretKey::random(&mut rng),
+        overrides: vec![],
+    };
+    if kind == 2 {
+        let mut h = g_height + rng.gen_range(0..4);
+        for _ in 0..rng.gen_range(2..6) {
+            sched.overrides.push((h, SecretKey::random(&mut rng)));
+            h += rng.gen_range(1..5);
+        }
+    }
+    let cfg = sched.model(kind != 0);
+
+    // genesis
+    let mut db = ODb::in_memory();
+    let g_header = PartialBlockHeader {
+        application: ApplicationHeader {
+            da_height: DaBlockHeight(g_da),
+            consensus_parameters_version: 0,
+            state_transition_bytecode_version: 0,
+            generated: Empty,
+        },
+        consensus: ConsensusHeader {
+            prev_root: Default::default(),
+            height: g_height.into(),
+            time: Tai64::UNIX_EPOCH,
+            generated: Empty,
+        },
+    };
+    let genesis = Block::new(g_header, vec![], &[], Default::default()).unwrap();
+    let store = |db: &mut ODb, b: &Block| -> Result<(), String> {
+        let mut tx = db.write_transaction();
+        tx.storage_as_mut::<FuelBlocks>()
+            .insert(b.header().height(), &b.compress(&chain_id))
+            .map_err(|e| format!("{e}"))?;
+        tx.commit().map(|_| ()).map_err(|e| format!("{e}"))
+    };
+    if let Err(e) = store(&mut db, &genesis) {
+        report.inconclusive(format!("harness: cannot store genesis: {e}"));
+        return;
+    }
+    let adapter = VerifierAdapter::new(&genesis.compress(&chain_id), cfg.real(), db.clone());
+    let mut s = Session {
+        db,
+        verifier: adapter.block_verifier.clone(),
+        g_height,
+        g_da,
+        cfg,
+        sched,
+        chain: BTreeMap::new(),
+        ids: vec![],
+    };
+    let gid = id_bytes(&genesis);
+    s.ids.push(gid.to_vec());
+    s.chain.insert(
+        g_height,
+        ParentInfo {
+            root: rfc6962_root(&s.ids),
+            da: g_da,
+            time: Tai64::UNIX_EPOCH.0,
+            id: gid,
+        },
+    );
+
+    for bi in 0..n_blocks {
+        let height = g_height + 1 + bi as u32;
+        let parent = s.chain.get(&(height - 1)).cloned().expect("parent");
+        let grandparent = height
+            .checked_sub(2)
+            .and_then(|h| s.chain.get(&h))
+            .cloned();
+        // ---- a valid block
+        let n_txs = rng.gen_range(0..4);
+        let mut txs = Vec::new();
+        for _ in 0..n_txs {
+            let opts = Opts {
+                executed_form: rng.gen_bool(0.7),
+                ..Default::default()
+            };
+            let k = rng.gen_range(0..6);
+            txs.push(gen_tx(&mut rng, &alpha, &mut FreeSource, &opts, k));
+        }
+        if rng.gen_bool(0.8) {
+            txs.push(gen_mint(
+                &mut rng,
+                &alpha,
+                &Opts::default(),
+                height.into(),
+                n_txs as u16,
+            ));
+        }
+        let da = parent.da + *pick(&mut rng, &[0u64, 0, 0, 1, 3]);
+        let time = parent.time + *pick(&mut rng, &[0u64, 0, 1, 1, 10]);
+        let partial = PartialBlockHeader {
+            application: ApplicationHeader {
+                da_height: DaBlockHeight(da),
+                consensus_parameters_version: idx32(&mut rng),
+                state_transition_bytecode_version: idx32(&mut rng),
+                generated: Empty,
+            },
+            consensus: ConsensusHeader {
+                prev_root: parent.root.into(),
+                height: height.into(),
+                time: Tai64(time),
+                generated: Empty,
+            },
+        };
+        let n_msgs = rng.gen_range(0..3);
+        let msg_ids: Vec<MessageId> =
+            (0..n_msgs).map(|_| MessageId::new(b32(&mut rng))).collect();
+        let event_root = if rng.gen_bool(0.5) {
+            [0u8; 32]
+        } else {
+            b32(&mut rng)
+        };
+        let block = Block::new(partial, txs.clone(), &msg_ids, event_root.into())
+            .expect("few txs");
+        let orig_id = id_bytes(&block);
+        let orig_fields = Fields::of(block.header());
+        let orig_bytes = tx_bytes(&txs);
+        let sk = s.sched.secret_for(height).clone();
+        let sig = sign(&sk, orig_id);
+        let at_boundary = s.cfg.overrides.iter().any(|(h, _)| *h == height);
+        report.count("c15.valid_blocks");
+        report.count(&format!("c15.valid_blocks.{}", s.cfg.kind()));
+        if at_boundary {
+            report.count("c15.valid_blocks_at_key_change_height");
+        }
+        if da == parent.da {
+            report.count("c15.valid_blocks_da_equal_parent");
+        }
+        if time == parent.time {
+            report.count("c15.valid_blocks_time_equal_parent");
+        }
+        let replay = json!({"seed": seed, "shard_seed": seed, "shard": shard, "session": session, "block": bi, "n_blocks": n_blocks});
+        let ctx = Ctx {
+            report,
+            selftest,
+            replay,
+        };
+        // the model of the transactions root must agree with the header it describes
+        if rfc6962_root(&orig_bytes) != orig_fields.tx_root
+            || orig_fields.tx_count as usize != txs.len()
+        {
+            report.violation(
+                format!("{pfx}tx_root_differs_from_spec_model"),
+                format!(
+                    "Block::new produced transactions_root/count that is not the RFC-6962 root over the serialized transactions / their number (height {height}, {} txs)",
+                    txs.len()
+                ),
+                ctx.replay.clone(),
+            );
+            return;
+        }
+        let orig_seal = Seal::PoA {
+            sig,
+            signer: addr_of(&sk),
+            msg: orig_id,
+            tampered: false,
+        };
+        let mk = |op: &str,
+                  mode: &'static str,
+                  fields: Fields,
+                  rehash: bool,
+                  txs: Vec<Transaction>,
+                  seal: Seal,
+                  cfg: Option<ModelCfg>,
+                  sig_class: &'static str| Case {
+            op: op.to_string(),
+            mode,
+            fields,
+            rehash,
+            txs,
+            seal,
+            cfg,
+            sig_class,
+        };
+        let mut cases: Vec<Case> = Vec::new();
+        // the unmodified block, as built (cached id) and as received (no cached id)
+        cases.push(mk(
+            "valid",
+            "asbuilt",
+            orig_fields.clone(),
+            true,
+            txs.clone(),
+            orig_seal.clone(),
+            None,
+            "none",
+        ));
+        cases.push(mk(
+            "valid",
+            "stale",
+            orig_fields.clone(),
+            false,
+            txs.clone(),
+            orig_seal.clone(),
+            None,
+            "none",
+        ));
+
+        // ---- header field mutations
+        let resign = |f: &Fields, s: &Session| -> Seal {
+            // seal again with the key the schedule prescribes for the *new* height
+            let h = f.build(true);
+            let id: fuel_core_types::fuel_types::Bytes32 = h.id().into();
+            let sk = s.sched.secret_for(f.height);
+            Seal::PoA {
+                sig: sign(sk, *id),
+                signer: addr_of(sk),
+                msg: *id,
+                tampered: false,
+            }
+        };
+        for (name, f, app_hash_only) in field_ops(
+            &mut rng,
+            &orig_fields,
+            &parent,
+            grandparent.as_ref(),
+            g_height,
+            orig_id,
+        ) {
+            cases.push(mk(
+                &name,
+                "stale",
+                f.clone(),
+                false,
+                txs.clone(),
+                orig_seal.clone(),
+                None,
+                "header_changed",
+            ));
+            if app_hash_only {
+                continue;
+            }
+            // recomputed application hash / id, old seal
+            let mut fr = f.clone();
+            fr.app_hash = Fields::of(&f.build(true)).app_hash;
+            cases.push(mk(
+                &name,
+                "rehash",
+                fr.clone(),
+                true,
+                txs.clone(),
+                orig_seal.clone(),
+                None,
+                "header_changed",
+            ));
+            let seal = resign(&fr, &s);
+            cases.push(mk(
+                &name,
+                "resign",
+                fr,
+                true,
+                txs.clone(),
+                seal,
+                None,
+                "resigned",
+            ));
+        }
+
+        // ---- transaction mutations
+        for (name, t2) in tx_ops(&mut rng, &alpha, &txs, report) {
+            cases.push(mk(
+                &name,
+                "stale",
+                orig_fields.clone(),
+                false,
+                t2.clone(),
+                orig_seal.clone(),
+                None,
+                "none",
+            ));
+            if t2.len() > u16::MAX as usize {
+                continue;
+            }
+            let mut fr = orig_fields.clone();
+            fr.tx_root = rfc6962_root(&tx_bytes(&t2));
+            fr.tx_count = t2.len() as u16;
+            fr.app_hash = Fields::of(&fr.build(true)).app_hash;
+            cases.push(mk(
+                &name,
+                "rehash",
+                fr.clone(),
+                true,
+                t2.clone(),
+                orig_seal.clone(),
+                None,
+                "header_changed",
+            ));
+            let seal = resign(&fr, &s);
+            cases.push(mk(&name, "resign", fr, true, t2, seal, None, "resigned"));
+        }
+
+        // ---- seal mutations (block untouched)
+        {
+            let mut sg = sig;
+            let i = rng.gen_range(0..64);
+            sg.as_mut()[i] ^= 1 << rng.gen_range(0..8);
+            cases.push(mk(
+                "sig:bitflip",
+                "seal",
+                orig_fields.clone(),
+                true,
+                txs.clone(),
+                Seal::PoA {
+                    sig: sg,
+                    signer: addr_of(&sk),
+                    msg: orig_id,
+                    tampered: true,
+                },
+                None,
+                "sig_tampered",
+            ));
+            let mut sg = sig;
+            let i = rng.gen_range(0..64);
+            sg.as_mut()[i] = sg.as_mut()[i].wrapping_add(1 + rng.gen_range(0..255u8));
+            cases.push(mk(
+                "sig:byte_changed",
+                "seal",
+                orig_fields.clone(),
+                true,
+                txs.clone(),
+                Seal::PoA {
+                    sig: sg,
+                    signer: addr_of(&sk),
+                    msg: orig_id,
+                    tampered: true,
+                },
+                None,
+                "sig_tampered",
+            ));
+            cases.push(mk(
+                "sig:zero",
+                "seal",
+                orig_fields.clone(),
+                true,
+                txs.clone(),
+                Seal::PoA {
+                    sig: Signature::from_bytes([0u8; 64]),
+                    signer: addr_of(&sk),
+                    msg: orig_id,
+                    tampered: true,
+                },
+                None,
+                "sig_tampered",
+            ));
+            let other = SecretKey::random(&mut rng);
+            cases.push(mk(
+                "sig:other_key",
+                "seal",
+                orig_fields.clone(),
+                true,
+                txs.clone(),
+                Seal::PoA {
+                    sig: sign(&other, orig_id),
+                    signer: addr_of(&other),
+                    msg: orig_id,
+                    tampered: false,
+                },
+                None,
+                "wrong_key",
+            ));
+            // a key of the schedule, but not the one for this height
+            let mut sched_keys: Vec<SecretKey> = vec![s.sched.genesis.clone()];
+            sched_keys.extend(s.sched.overrides.iter().map(|(_, k)| k.clone()));
+            if let Some(k2) = sched_keys.iter().find(|k| addr_of(k) != addr_of(&sk)) {
+                cases.push(mk(
+                    "sig:other_schedule_key",
+                    "seal",
+                    orig_fields.clone(),
+                    true,
+                    txs.clone(),
+                    Seal::PoA {
+                        sig: sign(k2, orig_id),
+                        signer: addr_of(k2),
+                        msg: orig_id,
+                        tampered: false,
+                    },
+                    None,
+                    "wrong_key",
+                ));
+            }
+            // right key, but the signature is over the parent's id
+            cases.push(mk(
+                "sig:over_parent_id",
+                "seal",
+                orig_fields.clone(),
+                true,
+                txs.clone(),
+                Seal::PoA {
+                    sig: sign(&sk, parent.id),
+                    signer: addr_of(&sk),
+                    msg: parent.id,
+                    tampered: false,
+                },
+                None,
+                "wrong_message",
+            ));
+            cases.push(mk(
+                "seal:genesis",
+                "seal",
+                orig_fields.clone(),
+                true,
+                txs.clone(),
+                Seal::Genesis,
+                None,
+                "genesis_seal",
+            ));
+        }
+
+        // ---- key schedule / configuration mutations (block and seal untouched)
+        {
+            let base = s.cfg.clone();
+            let mut alts: Vec<(&'static str, ModelCfg)> = Vec::new();
+            if !base.overrides.is_empty() {
+                let mut c = base.clone();
+                for o in c.overrides.iter_mut() {
+                    o.0 += 1;
+                }
+                alts.push(("cfg:schedule+1", c));
+                if base.overrides.iter().all(|(h, _)| *h > 0) {
+                    let mut c = base.clone();
+                    for o in c.overrides.iter_mut() {
+                        o.0 -= 1;
+                    }
+                    alts.push(("cfg:schedule-1", c));
+                }
+                let mut c = base.clone();
+                let i = rng.gen_range(0..c.overrides.len());
+                c.overrides.remove(i);
+                alts.push(("cfg:override_removed", c));
+                let mut c = base.clone();
+                c.overrides.push((height, addr_of(&SecretKey::random(&mut rng))));
+                c.overrides.sort_by_key(|x| x.0);
+                c.overrides.dedup_by_key(|x| x.0);
+                alts.push(("cfg:override_added_here", c));
+            }
+            let mut c = base.clone();
+            c.genesis = addr_of(&SecretKey::random(&mut rng));
+            alts.push(("cfg:genesis_key_replaced", c));
+            // the same single key expressed in the other configuration version
+            if base.overrides.is_empty() {
+                let mut c = base.clone();
+                c.v2 = !c.v2;
+                alts.push(("cfg:other_version_same_key", c));
+            } else {
+                // PoA (v1) knows only the genesis key
+                let mut c = base.clone();
+                c.v2 = false;
+                c.overrides.clear();
+                alts.push(("cfg:v1_genesis_key_only", c));
+            }
+            for (name, c) in alts {
+                cases.push(mk(
+                    name,
+                    "config",
+                    orig_fields.clone(),
+                    true,
+                    txs.clone(),
+                    orig_seal.clone(),
+                    Some(c),
+                    "schedule_changed",
+                ));
+            }
+        }
+
+        let mut stop = false;
+        for c in &cases {
+            let fired = evaluate(
+                &ctx,
+                &s,
+                &mut rng,
+                &orig_fields,
+                &orig_bytes,
+                orig_id,
+                at_boundary,
+                c,
+            );
+            if fired && c.op == "valid" {
+                // the chain itself is broken for this monitor; later blocks would only repeat it
+                stop = true;
+            }
+        }
+        if stop {
+            return;
+        }
+
+        // ---- extend the chain
+        if let Err(e) = store(&mut s.db, &block) {
+            report.inconclusive(format!("harness: cannot store block {height}: {e}"));
+            return;
+        }
+        s.ids.push(orig_id.to_vec());
+        s.chain.insert(
+            height,
+            ParentInfo {
+                root: rfc6962_root(&s.ids),
+                da,
+                time,
+                id: orig_id,
+            },
+        );
+    }
+    report.count("c15.sessions_completed");
+}
+
+fn c15(args: &Args, report: &Report) {
+    let selftest: u32 = args
+        .extra
+        .get("selftest")
+        .and_then(|s| s.parse().ok())
+        .unwrap_or(0);
+    let shards = args.by_tier(16usize, 64);
+    let sessions = args.by_tier(3u64, 30);
+    let n_blocks = args.by_tier(10usize, 16);
+    if let Some(rp) = read_replay(args) {
+        let seed = rp["shard_seed"].as_u64().unwrap_or(0);
+        let session = rp["session"].as_u64().unwrap_or(0);
+        let shard = rp["shard"].as_u64().unwrap_or(0) as usize;
+        let nb = rp["n_blocks"].as_u64().unwrap_or(n_blocks as u64) as usize;
+        run_session(report, seed, shard, session, nb, selftest);
+    } else {
+        let report2 = report.clone();
+        run_shards(report, args, shards, move |shard, seed| {
+            for s in 0..sessions {
+                run_session(&report2, seed, shard, s, n_blocks, selftest);
+            }
+        });
+        if selftest == 0 {
+            report.require("c15.valid_blocks", args.by_tier(400, 20_000));
+            report.require("c15.cases", args.by_tier(50_000, 2_000_000));
+            for k in ["PoA", "PoAV2-no-overrides", "PoAV2-schedule"] {
+                report.require(&format!("c15.valid_blocks.{k}"), 100);
+                report.require(&format!("c15.config.{k}"), 10_000);
+            }
+            report.require("c15.valid_blocks_at_key_change_height", 15);
+            report.require("c15.valid_blocks_da_equal_parent", 100);
+            report.require("c15.valid_blocks_time_equal_parent", 100);
+            for r in [
+                "height_zero",
+                "unknown_parent",
+                "prev_root",
+                "da_height",
+                "time",
+                "application_hash",
+                "transactions",
+                "genesis_seal",
+            ] {
+                report.require(&format!("c15.rule_violated.{r}"), 300);
+            }
+            for k in [
+                "header_changed",
+                "sig_tampered",
+                "wrong_key",
+                "wrong_message",
+                "schedule_changed",
+            ] {
+                report.require(&format!("c15.seal_invalid.{k}"), 200);
+            }
+            report.require("c15.accepted_changed_content", 5000);
+            report.require("c15.mode.stale", 10_000);
+            report.require("c15.mode.rehash", 10_000);
+            report.require("c15.mode.resign", 10_000);
+            report.require("c15.via_postcard", 5000);
+        }
+    }
+    report.finish(
+        args,
+        "exploration",
+        "session = genesis (height 0/1/5/1000/2^24-6, da 0/7/2^40) + 10-16 valid sealed \
+         blocks under PoA / PoAV2 without overrides / PoAV2 with 2-5 key changes a few \
+         heights apart; per block: the valid block (as built, and without cached id), ~45 \
+         header-field operators x {stale, rehash, resign}, ~10 transaction operators \
+         (insert/append/remove/duplicate/replace/swap/byte flip/witness-only/malleable \
+         field) x {stale, rehash, resign}, 7 seal operators, up to 7 key-schedule \
+         operators; 30% of the cases additionally pass through the postcard encoding of \
+         SealedBlock. A case = one (block, seal, config) judged at all three gates; \
+         distinct = distinct (operator, mode, config kind, at-key-change-height, \
+         observed gate results)",
+        false,
+        &[
+            "blocks are structurally generated, not executed (the consensus rules under test do not involve execution)",
+            "secp256k1 signing/recovery (fuel-crypto) and sha256 are trusted; signature malleability is not explored beyond bit/byte changes",
+            "release build with debug assertions: `header.id()` on a header whose application hash is stale panics in a debug_assert; such cases are not judged at verify_consensus (counted) and must be rejected by verify_block_fields",
+            "fault-proving (V2 header) is not compiled in",
+        ],
+    );
 }
